@@ -65,6 +65,9 @@ type Exec struct {
 	letSrc  map[string]string
 	axioms  []string // quantified facts about the entry heap (prunable)
 	extra   []string // extra assertions (ground instances) global to this function
+	curLoop     *loopInfo // loop whose contract clauses are being interpreted (for `iter`)
+	collector   *[]inlineRet // non-nil while an uncontracted helper is executed inline
+	inlineDepth int
 	wrapped []Term // errors bound to %w verbs of the format being interpreted
 	isInit  bool
 	reportLenient bool
@@ -921,6 +924,8 @@ func (ex *Exec) goTo(st *State, from, to *ssa.BasicBlock) {
 
 // atLoopHeader returns false if the path ends here (back edge).
 func (ex *Exec) atLoopHeader(st *State, li *loopInfo) bool {
+	ex.curLoop = li
+	defer func() { ex.curLoop = nil }()
 	lc := ex.loopContract(li)
 	label := fmt.Sprintf("loop%d", li.ordinal)
 	first := st.loops[li.header] == nil || !li.blocks[st.pred]
@@ -1051,6 +1056,9 @@ func (ex *Exec) loopGlobalInvariants() []*Clause {
 
 func (ex *Exec) loopAssigns(pre *State, lc *LoopContract) *assignSet {
 	as := &assignSet{refs: map[string][]Term{}, globals: map[string]bool{}, all: map[string]bool{}}
+	if ex.entry != nil {
+		as.entryBound = ex.entry.next
+	}
 	for _, e := range lc.Assigns {
 		ex.addAssign(pre, as, e, &specCtx{mode: "loop"})
 	}
@@ -1081,9 +1089,10 @@ func (ex *Exec) havocSV(st *State, base string, old SV, a *ssa.Alloc) SV {
 // frames
 
 type assignSet struct {
-	refs    map[string][]Term // heap map -> refs that may change
-	globals map[string]bool
-	all     map[string]bool // heap map -> anything may change (Done[*])
+	refs       map[string][]Term // heap map -> refs that may change
+	globals    map[string]bool
+	all        map[string]bool // heap map -> anything may change (Done[*])
+	entryBound Term            // loops: the function's entry allocation counter
 }
 
 func (ex *Exec) addAssign(st *State, as *assignSet, e interface{}, ctx *specCtx) {
@@ -1127,6 +1136,10 @@ func (ex *Exec) frameFormula(pre *State, h string, oldM, newM Term, as *assignSe
 	var hyp []Term
 	if h == "Done" {
 		// keys are Once identities, not allocated references
+	} else if as != nil && as.entryBound.S != "" {
+		// loop frames protect what existed when the function was entered; objects the
+		// function itself allocated before the loop are covered by the invariants instead
+		hyp = append(hyp, Lt(r, as.entryBound))
 	} else {
 		hyp = append(hyp, Lt(r, pre.next))
 	}
@@ -1178,6 +1191,11 @@ func (ex *Exec) atReturn(st *State, ret *ssa.Return) {
 	var results []SV
 	for _, r := range ret.Results {
 		results = append(results, ex.val(st, r))
+	}
+	if ex.collector != nil {
+		// returning from an inlined helper: hand the state back to the call site
+		*ex.collector = append(*ex.collector, inlineRet{st, results})
+		return
 	}
 	ctx := &specCtx{mode: "exit", results: results}
 	if ex.fc != nil {
@@ -1237,6 +1255,11 @@ func (ex *Exec) ghostValue(st *State, g LetDef, gsort string, ctx *specCtx) (sv 
 		}
 	}()
 	return ex.spec(st, g.Expr, ctx)
+}
+
+type inlineRet struct {
+	st      *State
+	results []SV
 }
 
 type ghostVal struct {
